@@ -7,6 +7,7 @@ Definition Qabs' (x : Q) : Q := Qabs x.
 Definition Qminb (x y : Q) : Q := if Qle_bool x y then x else y.
 Definition Qmaxb (x y : Q) : Q := if Qle_bool x y then y else x.
 Definition Qtrunc (x : Q) : Z := if Qle_bool 0 x then Qfloor x else (- Qfloor (- x))%Z.
+Definition Qfmod (x y : Q) : Q := Qred (x - y * inject_Z (Qtrunc (x / y))).
 Definition r2 (f : Q -> Q -> Q) (x y : Q) : Q := Qred (f x y).
 Definition unused1 (x : Q) : Q := 0%Q.   (* sqrt and trigonometry are never executed at Q *)
 Definition unused2 (x y : Q) : Q := 0%Q.
@@ -19,6 +20,7 @@ Definition QOps : Ops := {|
   omin := Qminb; omax := Qmaxb;
   ofZ := inject_Z; otoZ := Qtrunc;
   ofloor := fun x => inject_Z (Qfloor x); oceil := fun x => inject_Z (Qceiling x);
+  ofmod := Qfmod;
   osin := unused1; ocos := unused1; otan := unused1;
   oatan := unused1; oatan2 := unused2; oacos := unused1;
   opi := 0%Q;
